@@ -12,6 +12,7 @@
 #include <sys/personality.h>
 #include <sys/stat.h>
 #include <sys/wait.h>
+#include <sys/prctl.h>
 #include <unistd.h>
 #include <unordered_set>
 
@@ -25,7 +26,10 @@ extern "C" __attribute__((used)) const char* __ubsan_default_options() {
   return "print_stacktrace=1:halt_on_error=1:exitcode=77";
 }
 extern "C" __attribute__((used)) const char* __tsan_default_options() {
-  return "exitcode=77:halt_on_error=1:report_signal_unsafe=0:history_size=2:second_deadlock_stack=1:ignore_interceptors_accesses=1";
+  // symbolize=0: the runtime would start llvm-symbolizer with pipe()/fork() from inside the report, i.e. through the
+  // simulated pipe layer and the scheduler, whose allocations then go through the runtime's internal allocator and trip its
+  // checks (seen as a replay spinning for ever).  Addresses are symbolised offline (llvm-symbolizer-14 -e .build/tsan/vsim).
+  return "exitcode=77:halt_on_error=1:report_signal_unsafe=0:history_size=2:second_deadlock_stack=1:ignore_interceptors_accesses=1:symbolize=0";
 }
 
 namespace runner {
@@ -132,6 +136,7 @@ RunResult runIsolated(World* w, const Json& plan, double timeoutSec, const std::
       dup2(errFd, 2);
       close(errFd);
     }
+    prctl(PR_SET_PDEATHSIG, SIGKILL);   // never outlive the parent (the supervisor kills a replay that exceeds its limit)
     g_mode = MODE_CHILD;
     g_childFd = fds[1];
     RunResult r = w->execute(plan);
